@@ -33,7 +33,7 @@ EXPLANATION = (
     "variable, a counter running down from len(.)-1 under >= 0, or a guard comparing the index with a length). C16.h: constant propagation "
     "of the step for water_table in {0,1}: no cell of the daily tables receives the constant None (stored as NaN). C16.i: month and day of "
     "a real date are completed to a date only with a leap mock year (own positive example). C16.j: the profile-deepening while loop makes "
-    "progress on every iteration (every path from the body's entry back to the test stores into the thickness column). NOT decided: numeric assert "
+    "progress on every iteration (every path from the body's entry back to the test stores into the thickness column). C16.k: prepare_weather floors the ReferenceET column of the frame it returns at a positive value on every path (biomass accumulation divides by it), and no inplace=True method is applied to a selection of a frame anywhere (no effect under copy-on-write; own positive example). NOT decided: numeric assert "
     "failures, non-finite results from run-time values, pandas-internal errors.")
 
 L = frozenset
@@ -435,6 +435,10 @@ def positional_index_sites(chk, prog):
                 continue
             if isinstance(idx, ast.UnaryOp) and isinstance(idx.operand, ast.Constant):
                 continue
+            # X.iloc[<argsort of a column of X>] is a permutation of X's own positions (not a scalar index)
+            from ._weather import is_argsort_of
+            if isinstance(x.value.value, ast.Name) and is_argsort_of(idx, x.value.value.id):
+                continue
             flow = flow or flow_of(fi)
             nid = flow.node_of(x)
             if nid is None:
@@ -561,6 +565,94 @@ def mock_years(chk, prog):
     chk.floor("C16.i", n, 1, "month/day of a date completed with a literal year")
 
 
+_INPLACE_EXAMPLE = """
+def f(weather_df):
+    reference_et = weather_df['ReferenceET']
+    reference_et.clip(lower=0.1, inplace=True)
+    weather_df['MinTemp'].fillna(0, inplace=True)
+    weather_df.drop(['Day'], axis=1, inplace=True)
+    return weather_df
+"""
+
+
+def _inplace_on_selection(fn_node) -> list:
+    """calls `<sel>.m(..., inplace=True)` where <sel> is a column / row selection of a frame (`F[...]`, `F.col`, `F.loc[...]`) or a local bound
+    to one: under pandas copy-on-write the method changes a temporary and the frame keeps its values"""
+    sel_locals = set()
+    for a in ast.walk(fn_node):
+        if isinstance(a, ast.Assign) and isinstance(a.targets[0], ast.Name) and isinstance(a.value, ast.Subscript) and isinstance(a.value.value, (ast.Name, ast.Attribute)):
+            sel_locals.add(a.targets[0].id)
+    out = []
+    for c in ast.walk(fn_node):
+        if isinstance(c, ast.Call) and isinstance(c.func, ast.Attribute) and any(k.arg == "inplace" and isinstance(k.value, ast.Constant) and k.value.value is True for k in c.keywords):
+            r = c.func.value
+            if isinstance(r, ast.Subscript) or (isinstance(r, ast.Name) and r.id in sel_locals) or \
+                    (isinstance(r, ast.Attribute) and not (isinstance(r.value, ast.Name) and r.value.id == "self") and isinstance(r.value, ast.Name)):
+                out.append(c)
+    return out
+
+
+def et0_floor(chk, prog):
+    """C16.k (weather read through prepare_weather never has a reference ET of 0 - biomass accumulation divides by it): prepare_weather assigns
+    the ReferenceET column of the frame it returns from an expression that applies a positive lower bound (`.clip(lower=c)`, `np.maximum(., c)`,
+    c > 0), on every path to the return; and nowhere in the package is an `inplace=True` method applied to a selection of a frame (a no-op
+    under copy-on-write; the rule carries its own positive example)."""
+    ex = _inplace_on_selection(ast.parse(_INPLACE_EXAMPLE))
+    if len(ex) != 2:
+        raise AnalysisError(f"C16.k: the in-place lint finds {len(ex)} of the 2 sites of its positive example")
+    n = 0
+    for key, fi in sorted(prog.funcs.items()):
+        for c in _inplace_on_selection(fi.node):
+            n += 1
+            chk.violation("C16.k", f"{fi.module}:{fi.qualname}", norm(c)[:90], "inplace=True on a selection of a frame changes a temporary copy (pandas copy-on-write): the frame "
+                          "keeps its values - the operation has no effect", loc=fi.loc(c))
+    chk.notes["C16.k_inplace_calls_on_selections"] = n
+    pw = prog.find_func("prepare_weather")
+    chk.fn(pw.key)
+    where = f"{pw.module}:{pw.qualname}"
+    flow = flow_of(pw)
+    cfg = flow.cfg
+    rets = [r for r in walk_no_nested(pw.node) if isinstance(r, ast.Return) and isinstance(r.value, ast.Name)]
+    if len(rets) != 1:
+        raise AnalysisError("prepare_weather: expected one `return <frame>`")
+    frame = rets[0].value.id
+    rn = flow.stmt_node[id(rets[0])]
+    def lower_bounded(e):
+        for c in ast.walk(e):
+            if isinstance(c, ast.Call) and isinstance(c.func, ast.Attribute) and c.func.attr == "clip":
+                lo = next((k.value for k in c.keywords if k.arg == "lower"), c.args[0] if c.args else None)
+                if isinstance(lo, ast.Constant) and isinstance(lo.value, (int, float)) and lo.value > 0:
+                    return lo.value
+            if isinstance(c, ast.Call) and norm(c.func) in ("np.maximum", "np.clip", "numpy.maximum", "numpy.clip", "max"):
+                for a_ in c.args[1:]:
+                    if isinstance(a_, ast.Constant) and isinstance(a_.value, (int, float)) and a_.value > 0:
+                        return a_.value
+        return None
+    setters = {}
+    for a in walk_no_nested(pw.node):
+        if isinstance(a, ast.Assign) and isinstance(a.targets[0], ast.Subscript) and isinstance(a.targets[0].value, ast.Name) and a.targets[0].value.id == frame \
+                and isinstance(a.targets[0].slice, ast.Constant) and a.targets[0].slice.value == "ReferenceET":
+            lb = lower_bounded(a.value)
+            if lb is not None:
+                setters[flow.stmt_node[id(a)]] = (a, lb)
+    construct = f"{frame}['ReferenceET'] floored before `return {frame}`"
+    if not setters:
+        chk.violation("C16.k", where, construct, "the returned frame's ReferenceET column is never assigned from an expression with a positive lower bound: a day "
+                      "with a reference ET of 0 (the built-in Brussels file has 17) reaches `Tr / et0` - ZeroDivisionError in biomass accumulation", loc=pw.loc(rets[0]))
+    elif cfg.paths_exist_avoiding(cfg.entry, rn, set(setters)):
+        chk.violation("C16.k", where, construct, "the floor of the reference ET is skipped on some path to the return", loc=pw.loc(rets[0]))
+    else:
+        # the frame is not re-bound to something else after the floor
+        later = [cfg.nodes[k].ast for k in range(len(cfg.nodes)) if isinstance(cfg.nodes[k].ast, ast.Assign) and any(isinstance(t, ast.Name) and t.id == frame for t in cfg.nodes[k].ast.targets)
+                 and any(cfg.paths_exist_avoiding(sn, k, set()) for sn in setters)]
+        bad_later = [l for l in later if not (isinstance(l.value, ast.Call) and isinstance(l.value.func, ast.Attribute) and l.value.func.attr in ("drop", "copy", "reset_index", "sort_values", "rename")
+                                              and isinstance(l.value.func.value, ast.Name) and l.value.func.value.id == frame)]
+        if bad_later:
+            chk.violation("C16.k", where, construct, f"the frame is re-bound after the floor ({norm(bad_later[0])[:60]})", loc=pw.loc(bad_later[0]))
+        else:
+            chk.ok("C16.k", where, construct, f"lower bound {sorted(v[1] for v in setters.values())[0]} applied on every path")
+
+
 def deepening_progress(chk, prog):
     """C16.j (initialisation terminates): a `while` loop below _initialize whose test reads a quantity of the Soil object (zSoil) makes
     progress on every iteration: every path from the loop body's entry back to the loop test passes a store into the profile's
@@ -603,4 +695,5 @@ def run(chk, prog, tier):
     no_none_outputs(chk, prog)
     mock_years(chk, prog)
     deepening_progress(chk, prog)
+    et0_floor(chk, prog)
     chk.exhaustive = True
